@@ -52,6 +52,23 @@ pub fn run_trim<A: Cx>(d: &mut Drv<A>, maxlen: usize, nrandom: usize) {
             d.emit(json!({"op": "trim", "dst": 0, "c": A::NAME, "bytes": s}));
         }
     }
+    // long uniform runs of ONE unacceptable byte at either end (N / X padding of a contig, blank
+    // lines, NUL padding), around every power-of-two length, with and without an interior error
+    let pads: [u8; 5] = [b'N', b'#', b' ', 0, b'x'];
+    for &lead in &[0usize, 1, 7, 8, 15, 16, 31, 32, 33, 63, 64, 65, 127, 128, 129, 200, 255, 256, 257, 512, 1000] {
+        let padb = *d.rng.pick(&pads);
+        let body = d.rng.range(1, 90);
+        let tail = *d.rng.pick(&[0usize, 1, 63, 64, 65, 128, 300]);
+        let mut sv: Vec<u8> = vec![padb; lead];
+        sv.extend(d.rand_text(body));
+        let tb = *d.rng.pick(&pads);
+        sv.extend(std::iter::repeat(tb).take(tail));
+        d.emit(json!({"op": "trim", "dst": 1, "c": A::NAME, "bytes": sv}));
+        if body > 2 {
+            sv[lead + body / 2] = b'!' ^ 1;
+            d.emit(json!({"op": "trim", "dst": 1, "c": A::NAME, "bytes": sv}));
+        }
+    }
     for _ in 0..nrandom {
         let lead = d.rng.range(0, 70);
         let body = d.rng.range(0, 140);
